@@ -25,10 +25,15 @@ type PointRec struct {
 }
 
 type Exec struct {
-	Points  []PointRec
-	Choices []int
-	Hung    bool
-	Results []any // per thread
+	Points     []PointRec
+	Choices    []int
+	Hung       bool     // a thread did not reach its next scheduling point within the step timeout (blocked in something the scheduler does not see)
+	HungSite   string   // last scheduling point reached before the hang
+	Deadlock   string   // non-empty: no thread is enabled although some have not finished (who waits where)
+	ChildPanic string   // a thread spawned by the code under test (intercepted go statement) panicked
+	Threads    int      // threads that existed (top-level bodies + spawned)
+	Results    []any    // per top-level thread
+	Sites      []string // site of every decision (same as Points[i].Site; kept for rendering)
 }
 
 // PreemptionsBefore counts preemptions among the first i decisions.
@@ -47,7 +52,15 @@ type Runner struct {
 	active  bool
 	current int
 	toSched chan msg
-	resume  []chan struct{}
+	threads []*thread
+	x       *Exec
+}
+
+type thread struct {
+	resume chan struct{}
+	done   bool
+	cond   func() bool // non-nil: blocked until cond() holds (evaluated by the scheduler while no thread runs)
+	site   string
 }
 
 var theRunner *Runner
@@ -62,21 +75,78 @@ func Point(site string) {
 	}
 	tid := r.current
 	r.toSched <- msg{tid: tid, site: site}
-	<-r.resume[tid]
+	<-r.threads[tid].resume
 }
+
+// Active reports whether the calling code runs inside a controlled execution.
+func Active() bool {
+	r := theRunner
+	return r != nil && r.active
+}
+
+// Block is a scheduling point at which the calling thread is enabled only
+// once cond() holds (a lock that is free, a counter that reached zero...).
+// cond must be a pure function of state that only controlled threads change.
+// When Block returns, cond() holds and no other thread ran since it was
+// evaluated.
+func Block(site string, cond func() bool) {
+	r := theRunner
+	if r == nil || !r.active {
+		panic("sched.Block outside a controlled execution")
+	}
+	tid := r.current
+	t := r.threads[tid]
+	t.cond, t.site = cond, site
+	r.toSched <- msg{tid: tid, site: site}
+	<-t.resume
+}
+
+// Spawn registers fn as a new thread of the running execution (the
+// intercepted form of a go statement in the code under test). The new thread
+// is enabled at once and first runs when the scheduler picks it.
+func Spawn(fn func()) {
+	r := theRunner
+	if r == nil || !r.active {
+		go fn()
+		return
+	}
+	t := &thread{resume: make(chan struct{})}
+	tid := len(r.threads)
+	r.threads = append(r.threads, t)
+	x := r.x
+	go func() {
+		<-t.resume
+		func() {
+			defer func() {
+				if p := recover(); p != nil && x.ChildPanic == "" {
+					x.ChildPanic = fmt.Sprintf("thread %d (spawned by the code under test): %v", tid, p)
+				}
+			}()
+			fn()
+		}()
+		r.toSched <- msg{tid: tid, done: true}
+	}()
+}
+
+// OnRunStart is called at the beginning of every controlled execution (the
+// sync shim uses it to forget cooperative lock state left by an aborted one).
+var OnRunStart func()
 
 // Run executes the bodies once. prefix gives the choices at the first
 // len(prefix) decisions (an out-of-range choice is a hard error); later
 // decisions take choice 0 (keep running the current thread).
 func Run(bodies []func() any, prefix []int, stepTimeout time.Duration) (*Exec, error) {
 	n := len(bodies)
-	r := &Runner{toSched: make(chan msg), resume: make([]chan struct{}, n)}
 	x := &Exec{Results: make([]any, n)}
-	done := make([]bool, n)
+	r := &Runner{toSched: make(chan msg), x: x}
+	if OnRunStart != nil {
+		OnRunStart()
+	}
 	for i := range bodies {
-		r.resume[i] = make(chan struct{})
+		t := &thread{resume: make(chan struct{})}
+		r.threads = append(r.threads, t)
 		go func(i int) {
-			<-r.resume[i]
+			<-t.resume
 			func() {
 				defer func() {
 					if p := recover(); p != nil {
@@ -93,18 +163,34 @@ func Run(bodies []func() any, prefix []int, stepTimeout time.Duration) (*Exec, e
 	defer func() { r.active = false; theRunner = nil }()
 	running := -1
 	lastSite := "start"
+	isEnabled := func(i int) bool {
+		t := r.threads[i]
+		return !t.done && (t.cond == nil || t.cond())
+	}
 	for {
 		var enabled []int
-		stillEnabled := running >= 0 && !done[running]
+		stillEnabled := running >= 0 && isEnabled(running)
 		if stillEnabled {
 			enabled = append(enabled, running)
 		}
-		for i := 0; i < n; i++ {
-			if !done[i] && i != running {
+		unfinished := 0
+		for i := range r.threads {
+			if !r.threads[i].done {
+				unfinished++
+			}
+			if i != running && isEnabled(i) {
 				enabled = append(enabled, i)
 			}
 		}
+		x.Threads = len(r.threads)
 		if len(enabled) == 0 {
+			if unfinished > 0 {
+				for i, t := range r.threads {
+					if !t.done {
+						x.Deadlock += fmt.Sprintf("thread %d waits at %s; ", i, t.site)
+					}
+				}
+			}
 			break
 		}
 		k := len(x.Points)
@@ -119,17 +205,19 @@ func Run(bodies []func() any, prefix []int, stepTimeout time.Duration) (*Exec, e
 		x.Choices = append(x.Choices, choice)
 		running = enabled[choice]
 		r.current = running
-		r.resume[running] <- struct{}{}
+		r.threads[running].cond = nil
+		r.threads[running].resume <- struct{}{}
 		select {
 		case m := <-r.toSched:
 			if m.done {
-				done[m.tid] = true
+				r.threads[m.tid].done = true
 				lastSite = "done"
 			} else {
 				lastSite = m.site
 			}
 		case <-time.After(stepTimeout):
 			x.Hung = true
+			x.HungSite = lastSite
 			return x, nil
 		}
 	}
